@@ -143,6 +143,7 @@ static void gen_c12(Plan& p, Rng& r) {
             if (r.below(6) == 0) { o.path = r.below(3) ? "sub" : "."; o.n["oflags"] = r.below(2) ? 2 : 0; o.n["fdflags"] = 0; o.n["rights"] = (int64_t)R_READ; }
             else if (r.below(4) == 0) { o.n.erase("dirfd"); o.n["dirfd_dir"] = r.below(6); if (r.below(2)) o.path = pick(r, std::vector<std::string>{"f3", "new", "f0", "sub/f3"}); }
             if (r.below(6) == 0) o.n["abs"] = 1;
+            if (faults && r.below(2)) { o.fault = "realloc_fail"; o.fault_nth = 1; }     // fires only in an open that has to grow the descriptor table; the files opened before must stay usable
             p.ops.push_back(o);
         } else if (k < 62) {
             static const char* kinds[] = {"fd_write", "fd_write", "fd_pwrite", "fd_read", "fd_read", "fd_pread"};
